@@ -575,7 +575,8 @@ def main():
     ck.finish(states=tot['states'], transitions=tot['transitions'], traces_validated_against_impl=tot['orders'] + tot['projects'],
               rule='all generated projects of <= 3 targets (projgen shapes x placements%s); per project every ideal of the edge order '
                    '(cap %d ideals, then only the adversarial complete orders) and from every ideal every enabled edge executed for real; '
-                   'plus two adversarial complete schedules per project' % (' x odd names/unity/flat layout/default_library' if ck.thorough else ' rotated, 1- and 2-target shapes with option variants', MAX_IDEALS),
+                   'plus two adversarial complete schedules per project; hand-enumerated families on top: preprocess, unity mixes, deep link chains, '
+                   'libraries made by custom targets (producer shape x relation x consumer kind x build_by_default)' % (' x odd names/unity/flat layout/default_library' if ck.thorough else ' rotated, 1- and 2-target shapes with option variants', MAX_IDEALS),
               exhaustive=tot['capped'] == 0, projects=tot['projects'])
 
 
